@@ -61,19 +61,24 @@ def def_message(b_defs, d_defs):
     return Encoder().process(json.loads(json.dumps(msg)), wire_template_data=False).serialized_bytes, vals
 
 
-def random_history(rng, k, reuse=None):
+def random_history(rng, k, reuse=None, all_old=False):
     """definitions + a data message over them + the oracle (expected decoded values).
     reuse: an earlier history of the same stream: some of its element / sequence ids are defined AGAIN here,
-    with other attributes / members (the later definition governs what follows it)"""
+    with other attributes / members (the later definition governs what follows it).
+    all_old: EVERY id defined here was already defined by [reuse] (a definition message that brings no new id, only new
+    content for known ones)"""
     n_el = rng.randint(1, 5)
     used = set()
     b_defs = []
     old_el = [e['id'] for e in reuse['b_defs'] if e['id'] != 12001] if reuse else []
     old_seq = [q['id'] for q in reuse['d_defs'] if q['id'] not in reuse['reponly']] if reuse else []
+    all_old = bool(all_old and old_el)
+    if all_old:
+        n_el = min(n_el, len(old_el))
     for _ in range(n_el):
         while True:
             id_ = rng.randrange(48, 64) * 1000 + rng.randrange(1, 256)
-            if old_el and rng.random() < 0.7:
+            if old_el and (all_old or rng.random() < 0.7):
                 id_ = rng.choice(old_el)
             if id_ not in used:
                 used.add(id_)
@@ -90,12 +95,14 @@ def random_history(rng, k, reuse=None):
                      nbits=rng.randint(2, 31), kind='num')
         b_defs.append(e)
     # a standard element redefined (the definition governs), sometimes
-    if rng.random() < 0.3:
+    if rng.random() < 0.3 and (not all_old or any(e['id'] == 12001 for e in reuse['b_defs'])):
         b_defs.append(dict(id=12001, name='TEMPERATURE REDEFINED', unit='K', scale=2, ref=-27315, nbits=20, kind='num'))
     d_defs = []
     for _ in range(rng.randint(0, 2)):
         sid = 300000 + rng.randrange(48, 64) * 1000 + rng.randrange(1, 256)
-        if old_seq and rng.random() < 0.6:
+        if all_old and not old_seq:
+            break
+        if old_seq and (all_old or rng.random() < 0.6):
             sid = rng.choice(old_seq)
         if any(q['id'] == sid for q in d_defs):
             continue
@@ -113,7 +120,7 @@ def random_history(rng, k, reuse=None):
     # NCEP-style replication-only sequences (e.g. DRP8BIT 360002 = 101000 031001): the descriptor to replicate
     # is the one that FOLLOWS the sequence in the template (tables._fix_ncep_descriptors)
     reponly = {}
-    if rng.random() < 0.45:
+    if rng.random() < 0.45 and not all_old:
         for _ in range(rng.randint(1, 2)):
             rid = 360000 + rng.randrange(1, 256)
             if rid in seqs or rid in reponly:
@@ -455,7 +462,7 @@ def run(ctx):
     pairs = []
     for k in range(n2):
         h1 = random_history(rng, 10000 + k)
-        h2 = random_history(rng, 20000 + k, reuse=h1 if rng.random() < 0.6 else None)
+        h2 = random_history(rng, 20000 + k, reuse=h1 if (k % 3 == 0 or rng.random() < 0.6) else None, all_old=(k % 3 == 0))
         pairs.append((h1, h2))
     streams2 = []
     for h1, h2 in pairs:
